@@ -7,9 +7,15 @@ ENV = "GOFLAGS=-mod=mod GOPROXY=off GOSUMDB=off GOTOOLCHAIN=local"
 
 # property -> (design_ref, level text, level_note)
 CLAIMED = {
+ "C08": ("DESIGN.md §4 C08",
+         "Deductive proof, for all predicates (an uninterpreted deterministic function, including ones true on nil), all events and all kinds, that CollectionChange.include implements the statement's decision table: not delivered iff the item matches neither before nor after, ADD/REMOVE when it starts/stops matching, unchanged event when both match; id and time preserved; receiver not modified.",
+         "Assumes the include predicate is a deterministic function of (id, message). Seed filtering (itemSlice/Exclude), the order include->mask->equivalence in Pull and the booking predicate are added as further contracts in later revisions; until then they are listed as not decided in the evidence."),
+ "C09": ("DESIGN.md §4 C09",
+         "Deductive proof (loop-free, hence complete) that mergeChanges preserves the fold: for every view consistent with a and b chaining on a, applying the merged event equals applying both; add;remove cancels, remove;add becomes replace, old values chain, LastSeedValue is or-ed, the newest value/time win.",
+         "Kinds restricted to ADD/UPDATE/REPLACE/REMOVE (the ones that can occur). Not decided by this family: writers not waiting, eventual delivery, the 5 s send timeout (liveness/timing); DropExcess and mergeCollectionExcess step invariants are added in later revisions."),
  "C18": ("DESIGN.md §4 C18",
-         "Deductive proof, for all inputs, of function contracts on the real pkg/time code: CompareAscending returns exactly the sign of the chronological order of valid timestamps (with a lemma that this order is a strict total order).",
-         "Assumes: go/ssa faithfulness, SMT solver soundness, valid timestamps (seconds/nanos in the protobuf range) as precondition. Segment/mode operations and period predicates are added in later revisions of the contracts; clauses not yet under contract are listed in evidence under 'undecided'/'functions_under_contract'."),
+         "Deductive proof, for all inputs, of function contracts on the real code: CompareAscending = sign of chronological order (+ strict-total-order lemma); the four cut CompareTo methods and compareValueCuts against the cut order; PeriodsIntersect/PeriodsConnected = share an instant / closures share an instant (+ soundness/completeness/symmetry lemmas); segment ActiveAt, MagnitudeAt, Duration, Max, MaxMagnitude, MaxAfter, Cut, Shift against the step-function reading (prefix sums cum), with loop invariants, termination, no-panic obligations and a checked frame (no argument is modified).",
+         "Assumes valid timestamps/durations and total segment length <= 2^62 ns as preconditions; float magnitudes are {NaN,+-Inf,finite real} without rounding. Shift is specified structurally per case (the translation law follows by a stated, not machine-checked, induction over prefix sums). Sum/calcCuts and the modepb wrappers are not yet under contract in this revision."),
 }
 
 NOT_APPLICABLE = {
